@@ -252,9 +252,22 @@ func (ac *appCase) body(p *Proc, slot **Instance, mid func()) func() error {
 	}
 }
 
-func runSolo(ac *appCase, mid func()) appOutcome {
-	p := NewProc(0)
+// c20StepBudget: a scheduled step costs a goroutine hand-off, so the worlds of C20 use a smaller step
+// budget than the other checks — the same one alone and together, so that an application whose matcher
+// backtracks beyond it ends as "budget:steps" in both and compares equal.
+const c20StepBudget = 100_000
+
+func c20Proc(id int, ac *appCase) *Proc {
+	p := NewProc(id)
 	p.Stream = ac.Stream
+	if !liftBudgets {
+		p.StepBudget = c20StepBudget
+	}
+	return p
+}
+
+func runSolo(ac *appCase, mid func()) appOutcome {
+	p := c20Proc(0, ac)
 	var inst *Instance
 	RunProc(p, ac.body(p, &inst, mid))
 	return outcomeOf(p, inst)
@@ -427,8 +440,7 @@ func (c20Prop) Exec(cc Case, st *Stats) *Violation {
 	insts := make([]*Instance, n)
 	bodies := make([]func() error, n)
 	for i, a := range c.Apps {
-		procs[i] = NewProc(i)
-		procs[i].Stream = a.Stream
+		procs[i] = c20Proc(i, a)
 		bodies[i] = a.body(procs[i], &insts[i], nil)
 	}
 	s := RunScheduled(c.tape, c.Strategy, procs, bodies)
@@ -448,6 +460,9 @@ func (c20Prop) Exec(cc Case, st *Stats) *Violation {
 		return &Violation{Clause: "concurrent-run-finishes", Detail: "the applications did not all finish when run together (blocked on one another)", Observed: s.DescribeGrants(60)}
 	}
 	for i := range c.Apps {
+		if procs[i].End == EndBudget {
+			st.Count("reach.application_cut_by_the_step_budget")
+		}
 		got := outcomeOf(procs[i], insts[i])
 		if d := diffOutcome(r1[i], got, stable[i]); d != "" {
 			return &Violation{Clause: "non-interference", Detail: fmt.Sprintf("application %d (%s) behaves differently when run together with the others than alone: %s", i, c.Apps[i].Kind, d),
@@ -584,8 +599,7 @@ func raceWorld(t *Tape) (mismatch string) {
 	var wg sync.WaitGroup
 	start := make(chan struct{})
 	for i, a := range c.Apps {
-		procs[i] = NewProc(i)
-		procs[i].Stream = a.Stream
+		procs[i] = c20Proc(i, a)
 		wg.Add(1)
 		go func(i int, a *appCase) {
 			defer wg.Done()
